@@ -5,6 +5,7 @@ import (
 	"encoding/json"
 	"fmt"
 	"io"
+	"strings"
 	"sync"
 	"sync/atomic"
 
@@ -386,6 +387,71 @@ func c10AliasRun(c c10Alias) (sig, what string) {
 	return "", ""
 }
 
+type c10IOCase struct {
+	IOBanks int    `json:"io_banks"`
+	Addr    uint32 `json:"addr"`
+	First   int    `json:"first"`
+	Len     int    `json:"len"`
+}
+
+// c10ViaIO: a plain Write of `first` bytes, then `l` bytes through io.WriteString and again (fresh ROM) through
+// io.Copy from a strings.Reader; then the window is read back with io.ReadAll. All-or-error, nothing outside.
+func c10ViaIO(addr uint32, first, l int) (sig, what string) {
+	defer func() {
+		if x := recover(); x != nil {
+			sig, what = "unexplained:io-helper", fmt.Sprintf("addr $%06x first %d len %d: panic %v", addr, first, l, x)
+		}
+	}()
+	for _, how := range []string{"io.WriteString", "io.Copy"} {
+		img := c10Image(2)
+		model := append([]byte(nil), img...)
+		rom, err := snes.NewROM("t", img)
+		if err != nil {
+			return "bad-case", err.Error()
+		}
+		start := int(addr>>16<<15 | addr&0x7FFF)
+		end := int(addr>>16<<15) + 0x8000
+		w := rom.BusWriter(addr)
+		cur := start
+		if first > 0 && cur+first <= end {
+			p := bytes.Repeat([]byte{0x6B}, first)
+			if n, e := w.Write(p); n != first || e != nil {
+				return "unexplained:io-helper", fmt.Sprintf("plain Write of %d bytes at $%06x returned (%d,%v)", first, addr, n, e)
+			}
+			copy(model[cur:], p)
+			cur += first
+		}
+		text := strings.Repeat("TITLE-TEXT-", 5)[:l]
+		var n int64
+		var werr error
+		if how == "io.WriteString" {
+			var k int
+			k, werr = io.WriteString(w, text)
+			n = int64(k)
+		} else {
+			n, werr = io.Copy(w, strings.NewReader(text))
+		}
+		if cur+l <= end {
+			if n != int64(l) || werr != nil {
+				return "unexplained:io-helper", fmt.Sprintf("%s of %d bytes (room %d) through the writer at $%06x returned (%d,%v)", how, l, end-cur, addr, n, werr)
+			}
+			copy(model[cur:], text)
+		} else {
+			if werr == nil {
+				return "unexplained:io-helper", fmt.Sprintf("%s of %d bytes with only %d bytes of room in the bank returned (%d,nil): silent partial write", how, l, end-cur, n)
+			}
+			if n < 0 || n > int64(end-cur) {
+				return "unexplained:io-helper", fmt.Sprintf("%s of %d bytes (room %d) reported n=%d", how, l, end-cur, n)
+			}
+			copy(model[cur:], text[:n])
+		}
+		if !bytes.Equal(img, model) {
+			return "unexplained:io-helper", fmt.Sprintf("after %s of %d bytes (room %d) at $%06x the image differs from the model at file offset $%06x", how, l, end-cur, addr, firstDiff(img, model))
+		}
+	}
+	return "", ""
+}
+
 type c10Swap struct {
 	SwapBanks int    `json:"swap_banks"`
 	Addr      uint32 `json:"addr"`
@@ -452,6 +518,14 @@ func c10MultiCases(depth int) []c10Multi {
 }
 
 func replayC10(raw json.RawMessage) (string, error) {
+	var ic c10IOCase
+	if json.Unmarshal(raw, &ic) == nil && ic.IOBanks > 0 {
+		sig, what := c10ViaIO(ic.Addr, ic.First, ic.Len)
+		if sig == "" {
+			return "writes through io.WriteString / io.Copy are all-or-error and stay in the window", nil
+		}
+		return what, fmt.Errorf("%s", sig)
+	}
 	var sc c10Swap
 	if json.Unmarshal(raw, &sc) == nil && sc.SwapBanks > 0 {
 		sig, what := c10SwapRun(sc.Addr, sc.Grow)
@@ -654,6 +728,21 @@ func runC10(r *report.Run) {
 	}
 	transitions += 3 * ns
 	r.Set("image_replaced_between_calls", ns)
+	// the standard library looks for optional interfaces (io.StringWriter, io.ReaderFrom, io.WriterTo) and
+	// bypasses Write/Read when it finds them: text written with io.WriteString, data moved with io.Copy
+	var ni int64
+	for _, addr := range []uint32{0x008000, 0x00FFE0, 0x00FFF0, 0x018001} {
+		for _, l := range []int{0, 1, 16, 21, 40} {
+			for _, first := range []int{0, 16} {
+				ni++
+				if sig, what := c10ViaIO(addr, first, l); sig != "" {
+					r.Violation(sig, what, c10IOCase{2, addr, first, l})
+				}
+			}
+		}
+	}
+	transitions += 3 * ni
+	r.Set("writes_and_reads_through_io_helpers", ni)
 	// the same op sequences with two READERS, interleaved vs alone
 	var nr int64
 	par.For(len(multi), func(_, i int) {
